@@ -39,6 +39,9 @@ func New() *Recorder {
 	return &Recorder{t0: time.Now()}
 }
 
+// SetSilent switches recording off or on (safe while library goroutines emit).
+func (r *Recorder) SetSilent(b bool) { r.mu.Lock(); r.Silent = b; r.mu.Unlock() }
+
 // Now returns microseconds since the recorder was created.
 func (r *Recorder) Now() int64 { return int64(time.Since(r.t0) / time.Microsecond) }
 
